@@ -2,7 +2,7 @@ SPECIFICATION Spec
 CONSTANTS
   Annots <- AnAll
   OvChoices <- OvFull
-  DfChoices <- DfSmall
+  DfChoices <- DfTiny
   SpChoices <- SpNone
   BoundVals = {24, 7}
   MaxFuncs = 1
